@@ -27,7 +27,8 @@ def gen(tier, rng):
                    key=lambda mm: len(pyref.sign(p, sk, mm, rnd=tape[:32], rhopp_override=(None if p.mldsa else tape[:64]), want_trace=True)[1]))
         need = 32 if p.mldsa else 64
         out.append(Case("signature", cp, [bytes(p.sig), best, sk, 1, tape], ["in_domain", "scripted", "sign-random"], aux=("rest1", 100 - need)))
-        out.append(Case("signature", cp, [bytes(p.sig), best, sk, 0, tape], ["in_domain", "scripted", "sign-deterministic", "crate-only"], aux=("rest1", 100)))
+        # deterministic signing must not depend on what the caller's buffer holds (e.g. the randomness of an earlier hedged call)
+        out.append(Case("signature", cp, [bytes(rng.randrange(256) for _ in range(p.sig)), best, sk, 0, tape], ["in_domain", "scripted", "sign-deterministic", "dirty-buffer"], aux=("rest1", 100)))
         out.append(Case("keypair", cp, [tape[:32]], ["in_domain", "seeded", "crate-only"], aux=None))
         if p.mldsa:
             out.append(Case("ml_sign", API_OF[cp], [sk, best, b"c", 1, tape], ["in_domain", "scripted", "api", "crate-only"], aux=("rest2", 68)))
@@ -38,6 +39,14 @@ def gen(tier, rng):
         specials = [bytes(32), bytes([255] * 32), bytes([0] * 31 + [1]), bytes([128] + [0] * 31), bytes(rng.randrange(256) for _ in range(32))]
         for sd in specials:
             out.append(Case("kp_generate_log", API_OF[cp], [sd], ["in_domain", "seeded", "api", "special-seed", "crate-only"], aux=("seeded-api", sd, cp)))
+    # rare path: rejection chains of 37..165 attempts (committed corpus): deterministic signing still draws nothing and randomized
+    # signing still draws exactly one request, however long the loop runs
+    from props.c05 import corpus
+    for e in corpus("c05_long_chains.json"):
+        m, csk = bytes.fromhex(e["msg"]), bytes.fromhex(e["sk"])
+        out.append(Case("signature_live", e["set"], [m, csk, 0], ["in_domain", "long-chain", "corpus", "crate-only"], aux=("log", [], None)))
+        need = 32 if Par(e["set"]).mldsa else 64
+        out.append(Case("signature_live", e["set"], [m, csk, 1], ["in_domain", "long-chain", "corpus", "crate-only"], aux=("log", [need], None), skip_release=True))
     return out
 
 
@@ -55,6 +64,10 @@ def oracle(c, outs):
         epk, esk = pyref.keygen(Par(cp), sd)
         if (outs[1], outs[0]) != (epk, esk):
             return "seeded Keypair::generate (%s) is not KeyGen(seed) for seed %s" % (c.copy, sd.hex())
+        return None
+    if c.aux[0] == "log":
+        if outs[1] != c.aux[1]:
+            return "signature_live/%s (%s, long rejection chain) made RNG requests %s, expected %s" % (c.copy, "randomized" if c.args[2] == "1" else "deterministic", outs[1], c.aux[1])
         return None
     kind, exp = c.aux
     got = outs[2] if kind in ("rest", "rest2") else outs[1]
